@@ -28,6 +28,7 @@ RULE = (
     "count within 1 of the threshold; enumerated sequences are distinct by construction."
     "Every table is read once more with a validation limit (rows behind it reach no check; the end verdict is predicted from the rows in front of it). Field names may differ only in case."
     "The checks may be added to the CID after the reader was created."
+    "A sweep over twelve key values that are close relatives (halves of surrogate pairs, composed / decomposed letters, '1' / '1.0' / '01', trailing blank)."
 )
 ASSUMPTIONS = [
     "the generated CIDs have at most one IsUnique check, so 'accepted' and 'registered' coincide there (DistinctCount "
